@@ -48,6 +48,16 @@ CHECKS = {
    note=TB + "numpy's RandomState (seed → draws) and scikit-learn's NearestNeighbors are external; the latter's output is validated exactly on every call of the run.",
    technique="Lean 4 proof (loop invariants by induction over fuel, for all oracles) + recorded-draw replay correspondence",
    ref="§6 C07"),
+ 'C05': dict(
+   text="Theorems (any element type, any tuple size): with an array-like preprocessor and in-range indices the tuples that reach the solver are exactly X[idx] with member order preserved and one preprocessor call per column; indices+preprocessor and formed data give the same validated value, hence the same result of EVERY function of it (refinement through the common value), also for callable preprocessors; formed data never consults the preprocessor; an exception inside the preprocessor surfaces as PreprocessorError; indices without preprocessor ⇒ ValueError; generated method table: every validating method passes self.preprocessor_. Tie: for all 17 estimators × {ndarray, list, callable} × all integer dtypes × every data-taking method the real API is run on indices (into a permuted pool, with repeats) and on formed data and must agree (models, thresholds, outputs; call counts as the model predicts); the tuples observed at check_input's return equal the model's formTuples bit for bit.",
+   note=TB + "Equality of results is required to 1e-12 relative; bitwise equality is expected and reported as a statistic.",
+   technique="Lean 4 proof (refinement through the validated value) + differential correspondence incl. observed solver input",
+   ref="§6 C05"),
+ 'C06': dict(
+   text="Decision-logic theorems over all array descriptors (shape of any rank, element kind, NaN/inf flags), any preprocessor, any tuple size and min-samples: metric-learn's points and tuples validation (with the GENERATED check_tuple_size) accepts EXACTLY the documented form and rejects everything else with ValueError — never another error class; pair-label check characterised; generated method table obligation: every data-taking method of every class validates with its estimator's tuple size (decide over 140 rows regenerated from the source). Tie: an enumerated grammar of malformations × 17 estimators × 9 methods × with/without preprocessor run against the real API (outcome must be ValueError), the model's outcome class on the same descriptors, the assumed scikit-learn contract compared with the real check_array, and equivalent array-likes (list/int/Fortran/strided) refitted.",
+   note=TB + "scikit-learn's check_array/check_X_y are external: their contract for the option sets used is an explicit model (skCheckArray) compared with the real validator on every descriptor of the run. 'Non-numeric' means text entries; arbitrary Python objects are outside the grammar.",
+   technique="Lean 4 proof (exact accept/reject characterisation + decide on source-generated method table) + grammar-driven differential tests",
+   ref="§6 C06"),
 }
 
 NOT_YET = {}
